@@ -414,12 +414,35 @@ def goto_in_arguments():
     return out
 
 
+def program_level():
+    """shapes that concern the program as a whole or literal operands: main between other definitions of the same arity, an
+    uncalled definition, mutual recursion with the callee defined later, print / println of non-variable expressions and of
+    literals, exit of a literal and inside a scrutinee, literal operands on either side of every comparison"""
+    out = []
+    pre = "def first(p: i64, q: i64): i64 { println_i64(p); q - p }\ndef never(p: i64, q: i64): i64 { println_i64(77); p * q }\n"
+    post = "def last(p: i64, q: i64): i64 { print_i64(q); p + q }\ndef even(n: i64, acc: i64): i64 { if n == 0 { acc } else { odd(n - 1, acc + 1) } }\ndef odd(n: i64, acc: i64): i64 { if n == 0 { acc + 100 } else { even(n - 1, acc + 2) } }\n"
+    bodies = {
+        'main-in-the-middle': "first(a, b) + last(b, a)",
+        'mutual-recursion-later': "even(3, a) - odd(2, b)",
+        'print-forms': "print_i64(a + 1); println_i64(a * 2); print_i64(5); println_i64(0 - 7); print_i64(first(a, b)); println_i64(b); a",
+        'exit-literal': "if a == 0 { exit 300 } else { println_i64(a); exit 0 - 1 }",
+        'exit-in-scrutinee': "(if a == b { exit a + 1 } else { Cons(a, Nil) }).case[i64] { Nil => 0, Cons(h, t) => h + b }",
+        'result-range': "(a * 256) + (b - 300)",
+    }
+    for k, b in bodies.items():
+        out.append({'name': f"program-level/{k}", 'src': DECLS + HELPERS + pre + f"def main(a: i64, b: i64): i64 {{ {b} }}\n" + post})
+    for sk, sort in (('eq', '=='), ('ne', '!='), ('lt', '<'), ('le', '<='), ('gt', '>'), ('ge', '>=')):
+        out.append({'name': f"program-level/literal-operands/{sk}",
+                    'src': prog(f"(if 5 {sort} a {{ 1 }} else {{ 2 }}) + ((if a {sort} 5 {{ 10 }} else {{ 20 }}) + ((if 0 {sort} b {{ 100 }} else {{ 200 }}) + (if 3 {sort} 3 {{ 1000 }} else {{ 2000 }})))")})
+    return out
+
+
 def all_programs(tier='quick'):
     ps = name_reuse(("v", "x0") if tier == 'quick' else ("v", "x0", "a0", "x")) + generated_names() + effects_in_arguments() + cut_shapes() + live_variables()
-    return ps + fresh_clash() + lift_order() + positions_and_codata() + clause_orders_and_nested_types() + argument_permutations(tier) + scrutinee_reuse() + nested_labels() + covariable_arguments() + conditional_operand_effects() + goto_in_arguments()
+    return ps + fresh_clash() + lift_order() + positions_and_codata() + clause_orders_and_nested_types() + argument_permutations(tier) + scrutinee_reuse() + nested_labels() + covariable_arguments() + conditional_operand_effects() + goto_in_arguments() + program_level()
 
 
 def effect_sequenced(tier='quick'):
     """programs inside the fragment where Fun's evaluation order is unambiguous (C01, C02): no effects in call /
     constructor / destructor / operator arguments and no effects under codata-typed bindings"""
-    return name_reuse(("v", "x0") if tier == 'quick' else ("v", "x0", "a0", "x")) + generated_names() + cut_shapes() + live_variables() + fresh_clash() + lift_order() + [p for p in positions_and_codata() if not p['name'].startswith('codata-eff')] + clause_orders_and_nested_types() + argument_permutations(tier) + scrutinee_reuse() + nested_labels() + covariable_arguments() + conditional_operand_effects()
+    return name_reuse(("v", "x0") if tier == 'quick' else ("v", "x0", "a0", "x")) + generated_names() + cut_shapes() + live_variables() + fresh_clash() + lift_order() + [p for p in positions_and_codata() if not p['name'].startswith('codata-eff')] + clause_orders_and_nested_types() + argument_permutations(tier) + scrutinee_reuse() + nested_labels() + covariable_arguments() + conditional_operand_effects() + program_level()
